@@ -78,6 +78,18 @@ theorem markTight_wrapForest (E : Nat) (x : Wrapper) (ws : List Wrapper) (off : 
   simp only [wrapForest, Wrapper.nodeL]
   split <;> (cases x <;> simp [markTight, Wrapper.kind])
 
+/-- is the paragraph unwrapped after one more wrapper: a list item directly around the paragraph is tight
+    (the run on a one-paragraph document ends `tight`), anything further out leaves the leaf alone -/
+def stepTight (x : Wrapper) (ws : List Wrapper) (tg : Bool) : Bool :=
+  match ws with
+  | [] => (!x.isQuote) || tg
+  | _ => tg
+
+/-- the paragraph is unwrapped iff the INNERMOST wrapper is a list item -/
+def tightOf : List Wrapper → Bool
+  | [] => false
+  | x :: ws => stepTight x ws (tightOf ws)
+
 /-- **one wrapper around a one-line paragraph document** (the forest version of `parseBlocks_wrap1`) -/
 theorem parseBlocks_wrap1_line (cfg : Cfg) (hmn : 0 < cfg.maxNesting) (c : List Char) (m : List (Nat × Nat)) (a : Nat)
     (ws : List Wrapper) (l' : List Char) (g : Good [l']) (hf : FirstLineOk l')
@@ -85,13 +97,15 @@ theorem parseBlocks_wrap1_line (cfg : Cfg) (hmn : 0 < cfg.maxNesting) (c : List 
     (x : Wrapper) (hx : x.Ok) (hch : ChainFor cfg.chain [x])
     (hhr : .hr ∈ cfg.chain.takeWhile (· ≠ .list) → x.isQuote = false → hrLook 0 (x.mk ++ ' ' :: l') = false)
     (hsize : Lines.byteLen (docOf [l']) + 20 < 2147483648) (tg : Bool)
+    (htight : ws = [] → ∀ t, tokenize cfg (fuelFor cfg (docOf [l'])) (BState.fresh (docOf [l']) .root []) = .ok t →
+      t.tight = true)
     (ih : parseBlocks cfg (docOf [l']) =
       .ok (⟨.root, some (0, Lines.byteLen (docOf [l'])),
             wrapForest (Lines.byteLen (docOf [l'])) ws 0 (paraLeaf c m a (widthAll ws) (Lines.byteLen (docOf [l'])) tg)⟩, [])) :
-    ∃ tg', parseBlocks { cfg with maxNesting := cfg.maxNesting + x.cost } (docOf [x.pre 0 ++ l']) =
+    parseBlocks { cfg with maxNesting := cfg.maxNesting + x.cost } (docOf [x.pre 0 ++ l']) =
       .ok (⟨.root, some (0, Lines.byteLen (docOf [x.pre 0 ++ l'])),
             wrapForest (Lines.byteLen (docOf [x.pre 0 ++ l'])) (x :: ws) 0
-              (paraLeaf c m a (widthAll (x :: ws)) (Lines.byteLen (docOf [x.pre 0 ++ l'])) tg')⟩, []) := by
+              (paraLeaf c m a (widthAll (x :: ws)) (Lines.byteLen (docOf [x.pre 0 ++ l'])) (stepTight x ws tg))⟩, []) := by
   have hwrap := wrap1_docOf hx g.ne g.noTerm g.last
   have hcons : wrapLines x [l'] = [x.pre 0 ++ l'] := by simp [wrapLines_cons]
   rw [hcons] at hwrap
@@ -118,8 +132,8 @@ theorem parseBlocks_wrap1_line (cfg : Cfg) (hmn : 0 < cfg.maxNesting) (c : List 
       have := getMap_whole g2 (by simpa using hrr)
       simpa [hlead] using this
     subst hrng
-    refine ⟨tg, ?_⟩
-    rw [show Wrapper.quote.cost = 1 from rfl, hp, hwa]
+    have hst : stepTight Wrapper.quote ws tg = tg := by cases ws <;> simp [stepTight, Wrapper.isQuote]
+    rw [show Wrapper.quote.cost = 1 from rfl, hp, hwa, hst]
     simp only [hrel, wrapForest, Wrapper.nodeL, Wrapper.isQuote, if_true, Wrapper.kind, Wrapper.width, Wrapper.mk,
       List.length_cons, List.length_nil, Nat.zero_add]
   · have hq' : x.isQuote = false := by simpa using hq
@@ -133,14 +147,25 @@ theorem parseBlocks_wrap1_line (cfg : Cfg) (hmn : 0 < cfg.maxNesting) (c : List 
       | bullet c => rfl
       | ordered ds dl => rfl
     have hLT : Lines.linesT (docOf [l']) = [(l', [])] := by rw [g.linesT]; rfl
-    obtain ⟨tg0, rr, hrr, hp⟩ := item_commutes_gen_parse cfg hmk hdet hmc hch0 (docOf [l']) g.tab
+    obtain ⟨t, htk, hch_t, hrefs_t⟩ : ∃ t, tokenize cfg (fuelFor cfg (docOf [l'])) (BState.fresh (docOf [l']) .root []) = .ok t ∧
+        t.children = wrapForest (Lines.byteLen (docOf [l'])) ws 0
+          (paraLeaf c m a (widthAll ws) (Lines.byteLen (docOf [l'])) tg) ∧ t.refs = [] := by
+      unfold parseBlocks at ih
+      cases htk : tokenize cfg (fuelFor cfg (docOf [l'])) (BState.fresh (docOf [l']) .root []) with
+      | error e => rw [htk] at ih; cases ih
+      | ok t =>
+        rw [htk] at ih
+        simp only [Except.ok.injEq, Prod.mk.injEq, BNode.mk.injEq] at ih
+        exact ⟨t, rfl, ih.1.2.2, ih.2⟩
+    obtain ⟨rr, hrr, hp⟩ := item_commutes_gen cfg hmk hdet hmc hch0 (docOf [l']) g.tab
       (by simp only [Wrapper.width] at hwl; omega) ⟨l', [], [], hLT, hf.1, hf.2⟩ hmn _ _
       (MdIt.Pipeline.split_at_first .list _ hmem) hpre
       (fun hin l0 t0 rest0 h0 => by
         rw [hLT] at h0
         simp only [List.cons.injEq, Prod.mk.injEq] at h0
         rw [← h0.1.1]
-        exact hhr hin hq') ih
+        exact hhr hin hq') htk
+    rw [hch_t, hrefs_t] at hp
     have hwrap' : itemDoc x.mk (docOf [l']) = docOf [x.pre 0 ++ l'] := by rw [← hw1]; exact hwrap
     rw [hwrap', hn] at hrr
     rw [hwrap'] at hp
@@ -161,16 +186,13 @@ theorem parseBlocks_wrap1_line (cfg : Cfg) (hmn : 0 < cfg.maxNesting) (c : List 
     rw [hcost, hp, hwa, hrel]
     cases ws with
     | nil =>
-      refine ⟨tg0 || tg, ?_⟩
-      simp only [wrapForest, markTight_paraLeaf, Wrapper.nodeL, hq', hkind, Wrapper.width, Bool.false_eq_true, if_false,
-        widthAll, Nat.zero_add, Nat.add_zero]
-      cases tg0 <;> cases tg <;> simp
+      have htt : t.tight = true := htight rfl t htk
+      simp only [htt, if_true, wrapForest, markTight_paraLeaf, Wrapper.nodeL, hq', hkind, Wrapper.width, Bool.false_eq_true,
+        if_false, widthAll, Nat.zero_add, Nat.add_zero, stepTight, Bool.not_false, Bool.true_or]
     | cons y ws' =>
-      refine ⟨tg, ?_⟩
       rw [markTight_wrapForest]
-      simp only [ite_self]
+      simp only [ite_self, stepTight]
       simp only [wrapForest, Wrapper.nodeL, hq', hkind, Wrapper.width, Bool.false_eq_true, if_false, Nat.zero_add]
-
 
 theorem wrapAllLines_single (w : List Wrapper) (l : List Char) : wrapAllLines w [l] = [firstLine w l] := by
   obtain ⟨r', h, hl⟩ := wrapAllLines_cons w l []
@@ -183,8 +205,9 @@ theorem docOf_single (l : List Char) : docOf [l] = l := by simp [docOf, Lines.jo
     starts with a character other than a blank and that, as a document, parses to one paragraph
     (`Root[Paragraph[InlineRoot c m]]`, the paragraph from byte `a`).  Inside any list `w` of wrappers
     (conditions as in `parseBlocks_nested`) the block tree is the chain of wrapper nodes around that paragraph
-    — or, when the innermost wrapper is a list item, possibly (`tg`; in fact always: the item is tight) around
-    the bare placeholder, the paragraph unwrapped by `mark_tight_paragraphs` — and the placeholder holds the
+    — or, exactly when the innermost wrapper is a list item (`tightOf w`: the run on the one-paragraph document
+    ends `tight`, hypothesis `htight`), around the bare placeholder, the paragraph unwrapped by
+    `mark_tight_paragraphs` — and the placeholder holds the
     SAME inline text `c`; its per-line table is `m` moved by the width of the prefixes.  The inline rules
     (`CodePair.span_verbatim_ctx` for a code span) therefore see the text they see at top level. -/
 theorem parseBlocks_para_nested (cfg : Cfg) (hmn : 0 < cfg.maxNesting) (c : List Char) (m : List (Nat × Nat)) (a : Nat)
@@ -192,18 +215,18 @@ theorem parseBlocks_para_nested (cfg : Cfg) (hmn : 0 < cfg.maxNesting) (c : List
     (hm : ∀ kv ∈ m, kv.2 ≤ Lines.byteLen l)
     (hbase : parseBlocks cfg (docOf [l]) =
       .ok (⟨.root, some (0, Lines.byteLen (docOf [l])),
-            [⟨.paragraph, some (a, Lines.byteLen (docOf [l])), [⟨.inlineRoot c m, none, []⟩]⟩]⟩, [])) :
+            [⟨.paragraph, some (a, Lines.byteLen (docOf [l])), [⟨.inlineRoot c m, none, []⟩]⟩]⟩, []))
+    (htight : ∀ t, tokenize cfg (fuelFor cfg (docOf [l])) (BState.fresh (docOf [l]) .root []) = .ok t → t.tight = true) :
     ∀ (w : List Wrapper), (∀ x ∈ w, x.Ok) → ChainFor cfg.chain w →
       (.hr ∈ cfg.chain.takeWhile (· ≠ .list) → HrFree w l) →
       Lines.byteLen (docOf [firstLine w l]) + 20 < 2147483648 →
-      ∃ tg, parseBlocks { cfg with maxNesting := cfg.maxNesting + depthCost w } (docOf [firstLine w l]) =
+      parseBlocks { cfg with maxNesting := cfg.maxNesting + depthCost w } (docOf [firstLine w l]) =
         .ok (⟨.root, some (0, Lines.byteLen (docOf [firstLine w l])),
               wrapForest (Lines.byteLen (docOf [firstLine w l])) w 0
-                (paraLeaf c m a (widthAll w) (Lines.byteLen (docOf [firstLine w l])) tg)⟩, [])
+                (paraLeaf c m a (widthAll w) (Lines.byteLen (docOf [firstLine w l])) (tightOf w))⟩, [])
   | [], _, _, _, _ => by
-    refine ⟨false, ?_⟩
     have e : (m.map fun kv => (kv.1, kv.2 + 0)) = m := by simp
-    simp only [firstLine, depthCost, wrapForest, paraLeaf, Bool.false_eq_true, if_false, widthAll, Nat.zero_add,
+    simp only [firstLine, depthCost, wrapForest, paraLeaf, tightOf, Bool.false_eq_true, if_false, widthAll, Nat.zero_add,
       inlineRootAt, e]
     exact hbase
   | x :: ws, hw, hch, hhr, hsize => by
@@ -214,7 +237,7 @@ theorem parseBlocks_para_nested (cfg : Cfg) (hmn : 0 < cfg.maxNesting) (c : List
     have hsz' : Lines.byteLen (docOf [firstLine ws l]) + 20 < 2147483648 := by
       simp only [docOf_single, firstLine, Lines.byteLen_append] at hsize ⊢
       omega
-    obtain ⟨tg, ih⟩ := parseBlocks_para_nested cfg hmn c m a l g hf ha hm hbase ws hws hch.tail (fun h => (hhr h).tail) hsz'
+    have ih := parseBlocks_para_nested cfg hmn c m a l g hf ha hm hbase htight ws hws hch.tail (fun h => (hhr h).tail) hsz'
     have hf' : FirstLineOk (firstLine ws l) := by
       cases ws with
       | nil => exact hf
@@ -222,11 +245,12 @@ theorem parseBlocks_para_nested (cfg : Cfg) (hmn : 0 < cfg.maxNesting) (c : List
         have := firstLine_head (hws y (by simp)) ws' l
         exact ⟨this.2, .inl (by rw [this.1]; rfl)⟩
     have hbl := byteLen_firstLine hws l
-    obtain ⟨tg', h⟩ := parseBlocks_wrap1_line { cfg with maxNesting := cfg.maxNesting + depthCost ws }
+    have h := parseBlocks_wrap1_line { cfg with maxNesting := cfg.maxNesting + depthCost ws }
       (Nat.lt_of_lt_of_le hmn (Nat.le_add_right _ _)) c m a ws (firstLine ws l) g' hf' (by omega)
       (fun kv hkv => by have := hm kv hkv; omega) x hx hch.head
-      (fun hin hq => hr_item hx hq (hhr hin)) hsz' tg ih
+      (fun hin hq => hr_item hx hq (hhr hin)) hsz' (tightOf ws)
+      (fun hws0 t ht => by subst hws0; exact htight t ht) ih
     rw [cfg_nest] at h
-    exact ⟨tg', h⟩
+    exact h
 
 end MdIt.C11N
